@@ -38,16 +38,8 @@ type Case struct {
 var (
 	formU = mapping.NewUnmarshaler("form", mapping.WithStringValues(), mapping.WithOpaqueKeys(), mapping.WithFromArray())
 	pathU = mapping.NewUnmarshaler("path", mapping.WithStringValues(), mapping.WithOpaqueKeys())
-	hdrU  = mapping.NewUnmarshaler("header", mapping.WithStringValues(), mapping.WithCanonicalKeyFunc(textproto.CanonicalMIMEHeaderKey))
+	hdrU  = mapping.NewUnmarshaler("header", mapping.WithStringValues(), mapping.WithOpaqueKeys(), mapping.WithCanonicalKeyFunc(textproto.CanonicalMIMEHeaderKey)) // as of /repo c661af9
 )
-
-func init() {
-	if strictDotted {
-		// C08_STRICT=1 judges a flat dotted header as supplied: the direct header entry then copies the
-		// construction of candidate-fixes/header-opaque-keys.diff (httpx.Parse uses whatever the tree constructs)
-		hdrU = mapping.NewUnmarshaler("header", mapping.WithStringValues(), mapping.WithOpaqueKeys(), mapping.WithCanonicalKeyFunc(textproto.CanonicalMIMEHeaderKey))
-	}
-}
 
 type observation struct {
 	accepted bool
@@ -220,8 +212,94 @@ func check(c *Case) (fd *finding, oc int) {
 	return judge(c, execute(c, typ))
 }
 
-// judge compares one observation with the oracle.
+// Cause keys of the two known deviations around dotted keys (one class each, whatever the manifestation).
+const (
+	causeDepDotted = "dep-through-dotted-key"           // optional=dep / optional=!dep resolved by the flat key text, the value found along the path
+	causeTailTaken = "dotted-key-takes-top-level-member" // absent p.q with a present head p takes the top-level member q (recursiveValuer inherits)
+)
+
+func causeKind(k string) bool { return k == causeDepDotted || k == causeTailTaken }
+
+// judge compares one observation with the oracle; a strict finding that is explained by one of
+// the two diagnostic readings gets that cause as its kind.
 func judge(c *Case, ob observation) (fd *finding, oc int) {
+	fd, oc = judgeStrict(c, ob)
+	if fd != nil && !ob.panicked && c.Raw == nil {
+		if cause := knownCause(c, ob); cause != "" {
+			fd = &finding{cause, fd.Field, "[" + fd.Kind + "] " + fd.Desc}
+		}
+	}
+	return fd, oc
+}
+
+// knownCause: does the observation agree with the evaluator under a diagnostic reading?
+//   dep-through-dotted-key: some field depends on a sibling through a dotted key below a path-reading
+//     unmarshaler, and with the presence test of exactly those relations made by the flat key text
+//     (oracle.go diagFlat) no finding remains — i.e. the verdict differs from the evaluator only
+//     through the presence test of the dependency.
+//   dotted-key-takes-top-level-member: a field with a two-segment key p.q is absent along the path, another field
+//     below the same head p is supplied along the path, a third field's whole key is q and is
+//     supplied; with the absent field read as "supplied with that member's value" no finding remains.
+func knownCause(c *Case, ob observation) string {
+	dep := false
+	for i := range c.Fields {
+		dep = dep || depThroughDotted(c.Entry, c.Fields, i)
+	}
+	if dep {
+		flat := make([]bool, len(c.Toks))
+		for i, t := range c.Toks {
+			flat[i] = t.T == "alt"
+		}
+		diagFlat = flat
+		fd, _ := judgeStrict(c, ob)
+		diagFlat = nil
+		if fd == nil {
+			return causeDepDotted
+		}
+	}
+	if toks := tailTakenReading(c); toks != nil {
+		c2 := *c
+		c2.Toks = toks
+		if fd, _ := judgeStrict(&c2, ob); fd == nil {
+			return causeTailTaken
+		}
+	}
+	return ""
+}
+
+func tailTakenReading(c *Case) []Tok {
+	var out []Tok
+	for i, f := range c.Fields {
+		k := f.Key
+		// absent along the path: no token, or a token under the other placement (a flat member "p.q")
+		if (c.Toks[i].T != "absent" && c.Toks[i].T != "alt") || strings.Count(k, ".") != 1 || !pathReading(delivery(c.Entry, f)) {
+			continue
+		}
+		head, tail := k[:strings.Index(k, ".")], k[strings.Index(k, ".")+1:]
+		headOn, member := false, -1
+		for j, g := range c.Fields {
+			t := c.Toks[j]
+			if j == i || t.T == "absent" || t.T == "alt" {
+				continue
+			}
+			if strings.HasPrefix(g.Key, head+".") {
+				headOn = true
+			}
+			if keyName(c.Fields, j) == tail {
+				member = j
+			}
+		}
+		if headOn && member >= 0 {
+			if out == nil {
+				out = append([]Tok{}, c.Toks...)
+			}
+			out[i] = c.Toks[member]
+		}
+	}
+	return out
+}
+
+func judgeStrict(c *Case, ob observation) (fd *finding, oc int) {
 	if ob.panicked {
 		return &finding{"panic", -1, ob.err}, ocRejectedAllowed
 	}
